@@ -3,12 +3,13 @@
 (* (a scenario run with chain lengths n and 4n on 256 KB stacks).  A record is within the bound  *)
 (* iff neither run crashed or timed out, both completed and ran every body, the deepest nesting  *)
 (* of inline execution is at most K = kMaxInlineDepth + C (a constant, independent of n, the     *)
-(* same for n and 4n), the deepest InlineDepthGuard depth is at most kMaxInlineDepth, and the    *)
+(* same for n and 4n), the deepest InlineDepthGuard depth is at most kMaxInlineDepth + 1, and the    *)
 (* stack use stays under a fixed budget.  Records out of bound are listed (UNBOUNDED), records   *)
 (* of scenarios that must be bounded make the trace invalid.                                     *)
 EXTENDS Integers, Sequences, FiniteSets, TLC, Json, IOUtils
 
-CONSTANTS Slack,        \* C: frames of the surrounding loops + stale entries of the stack-pointer measure
+CONSTANTS GuardSlack,   \* evaluateNodeConcurrently takes its guard unconditionally, on top of the schedule guard
+          Slack,        \* C: frames of the surrounding loops + stale entries of the stack-pointer measure
           BudgetKb,     \* stack budget for (kMaxInlineDepth + C) nested levels
           MustBound     \* scenarios whose record must be within the bound
 
@@ -24,7 +25,7 @@ Within(r) ==
   /\ r.done1 = 1 /\ r.done2 = 1
   /\ r.ran1 >= r.n1 /\ r.ran2 >= r.n2
   /\ r.nest1 <= K /\ r.nest2 <= K
-  /\ r.guard1 <= Hdr.maxinl /\ r.guard2 <= Hdr.maxinl
+  /\ r.guard1 <= Hdr.maxinl + GuardSlack /\ r.guard2 <= Hdr.maxinl + GuardSlack
   /\ r.sb1 <= BudgetKb * 1024 /\ r.sb2 <= BudgetKb * 1024
 
 Init == l = 2 /\ unbounded = {} /\ Hdr.e = "Header"
